@@ -219,7 +219,7 @@ def sf(x: float):
 def dms_part(ctx: Ctx, drv):
     from midgard.math.unit import Unit
 
-    n = ctx.budget(1500, 60000)
+    n = ctx.budget(1500, 30000)
     TOL_C = Fraction(1, 10**12)   # degrees, correspondence
     TOL_O = Fraction(1, 10**11)   # degrees, property
     angles = [gen_angle(ctx.rng) for _ in range(n)]
@@ -241,7 +241,9 @@ def dms_part(ctx: Ctx, drv):
         ineg = math.copysign(1.0, d) < 0
         tot_i = abs(frac(d)) + frac(m) / 60 + frac(s) / 3600
         tot_m = md + mm / 60 + ms / 3600
-        if ineg != mneg or abs(tot_i - tot_m) > TOL_C:
+        if abs(x) < 1e-290 and abs(tot_i - tot_m) <= TOL_C:
+            ctx.count("dms:underflow")       # x * degrees2radians underflows to (signed) zero: sign of 0 not compared
+        elif ineg != mneg or abs(tot_i - tot_m) > TOL_C:
             ctx.disagree("deg_to_dms", case, a, [d, m, s])
         elif (abs(frac(d)), frac(m)) != (md, mm):
             ctx.count("dms:floor-edge")   # float product landed on the other side of an integer
@@ -414,7 +416,7 @@ def classify_error(e: Exception) -> str:
 
 def lagrange_part(ctx: Ctx, drv):
     rng = ctx.rng
-    ncases = ctx.budget(160, 6000)
+    ncases = ctx.budget(160, 3500)
     for ci in range(ncases):
         n = rng.choice([3, 4, 5, 8, 12, 13]) if rng.random() < 0.3 else rng.randint(3, 60)
         w = rng.randint(3, min(12, n))
@@ -574,10 +576,55 @@ def interp_oracle(ctx: Ctx, kind, case, x, y, xn, polys, tail, w, kw):
         V(ctx, f"interp:{kind}:raises:{type(e).__name__}", f"{kind} raised {type(e).__name__}: {str(e)[:120]} on valid input (y tail {tail})", case)
 
 
+def derivative_part(ctx: Ctx):
+    """interpolate_with_derivative: same values as interpolate, derivative = central difference of the interpolant
+    over x_new +- dx (the documented definition), hence exact slope for data on a line; every interpolator"""
+    from midgard.math import interpolation as ip
+
+    rng = ctx.rng
+    for ci in range(ctx.budget(10, 200)):
+        for kind in KINDS:
+            n = rng.randint(6, 30)
+            x, flavour = gen_abscissae(rng, n)
+            if kind == "barycentric_interpolator":   # full-degree polynomial: keep the node set well conditioned
+                n = rng.randint(6, 9)
+                x, flavour = rng.uniform(-50, 50) + 10 ** rng.uniform(-1, 1) * np.arange(n), "uniform"
+            tail = rng.choice([(), (2,)])
+            y, _ = gen_y(rng, x, tail, 3)
+            dx = float(np.min(np.diff(x))) * rng.choice([0.5, 0.25, 1.0])
+            xn = np.array([rng.uniform(x[0] + dx, x[-1] - dx) for _ in range(rng.randint(1, 5))])
+            kw = {"window": rng.randint(3, min(8, n))} if kind == "lagrange" else {}
+            case = {"part": "derivative", "kind": kind, "n": n, "tail": list(tail), "dx": fl(dx), "x": [fl(v) for v in x],
+                    "xn": [fl(v) for v in xn], "y": [fl(v) for v in np.asarray(y).ravel()]}
+            ctx.case(case)
+            ctx.count("derivative:" + kind)
+            try:
+                with warnings.catch_warnings():
+                    warnings.simplefilter("ignore")
+                    yn, yd = ip.interpolate_with_derivative(x, y, xn, kind=kind, dx=dx, **kw)
+                    ref = ip.interpolate(x, y, xn, kind=kind, **kw)
+                    hi = ip.interpolate(x, y, xn + dx, kind=kind, **kw)
+                    lo = ip.interpolate(x, y, xn - dx, kind=kind, **kw)
+                    a, b = rng.uniform(-3, 3), rng.uniform(-3, 3)
+                    line = (a + b * (x - x[0])).reshape((n,) + (1,) * len(tail)) * np.ones((n,) + tuple(tail))
+                    _, ld = ip.interpolate_with_derivative(x, line, xn, kind=kind, dx=dx, **kw)
+            except Exception as e:  # noqa
+                V(ctx, f"interp:derivative:raises:{type(e).__name__}", f"interpolate_with_derivative(kind={kind!r}) raised {type(e).__name__}: {str(e)[:100]}", case)
+                continue
+            scale = float(np.max(np.abs(y))) + 1e-300
+            amp = 1.0 + float(np.max(np.abs(x)) / np.min(np.diff(x)))
+            if not np.all(np.abs(np.asarray(yn) - ref) <= 1e-12 * scale):
+                V(ctx, f"interp:derivative:values:{kind}", "interpolate_with_derivative returns other values than interpolate", case)
+            if not np.all(np.abs(np.asarray(yd) - (hi - lo) / (2 * dx)) <= 1e-9 * amp * scale / dx):
+                V(ctx, f"interp:derivative:definition:{kind}", "derivative is not the central difference of the interpolant over x_new +- dx", case)
+            if not np.all(np.abs(np.asarray(ld) - b) <= 1e-9 * amp * (abs(a) + abs(b) * float(x[-1] - x[0]) + 1) / dx):
+                V(ctx, f"interp:derivative:line:{kind}", f"derivative of data on a line with slope {b!r} is {np.asarray(ld).ravel()[:3]}", case)
+
+
 def scipy_part(ctx: Ctx, drv):
     """linear: correspondence with the Lean model; all four: oracle; barycentric vs Lean lagrange with w = n"""
     rng = ctx.rng
-    ncases = ctx.budget(60, 1500)
+    ncases = ctx.budget(60, 1200)
     for ci in range(ncases):
         for kind in KINDS[1:]:
             n = rng.randint(4, 60) if kind != "barycentric_interpolator" else rng.randint(3, 14)
@@ -659,7 +706,7 @@ def dops_part(ctx: Ctx, drv):
     from midgard.gnss.compute_dops import compute_dops
 
     rng = ctx.rng
-    ncases = ctx.budget(400, 15000)
+    ncases = ctx.budget(400, 10000)
     names = ["gdop", "pdop", "tdop", "hdop", "vdop"]
     for ci in range(ncases):
         az, el, flv = gen_geometry(rng)
@@ -688,6 +735,10 @@ def dops_part(ctx: Ctx, drv):
             ctx.count("dops:ill-conditioned(skipped)")
             continue
         mv = [Fraction(t) for t in m.split()[1:]]
+        if not all(math.isfinite(float(u)) for u in d):
+            V(ctx, "dops:not-finite", f"compute_dops returned {[float(u) for u in d]} for a geometry with cond(HtH) = {cond:.3g}", case)
+            ctx.disagree("compute_dops value", case, [float(q) for q in mv], [float(u) for u in d])
+            continue
         rel = 64 * EPS * cond + 1e-13
         for nm, dv, q in zip(names, d, mv):
             if abs(frac(float(dv)) ** 2 - q) > frac(rel) * q:
@@ -721,7 +772,7 @@ def plate_part(ctx: Ctx, drv, info):
     from midgard.math.plate_motion import PlateMotion
 
     rng = ctx.rng
-    reps = ctx.budget(6, 150)
+    reps = ctx.budget(6, 100)
     R = 6371e3
     for (mname, plate, w, c, k) in info["poles"]:
         try:
@@ -765,6 +816,12 @@ def plate_part(ctx: Ctx, drv, info):
             nv = float(np.linalg.norm(v))
             if abs(float(np.dot(v, pos))) > 1e-12 * nv * nr + 1e-300:
                 V(ctx, "plate:v.r=0", f"v.r = {float(np.dot(v, pos))!r} for |v||r| = {nv * nr!r}", case)
+            # ... and it is the right-handed rotation velocity: |v|^2 = |w|^2|r|^2 - (w.r)^2, (w x r).v = |v|^2
+            lag = nw * nw * nr * nr - float(np.dot(pole, pos)) ** 2
+            if abs(nv * nv - lag) > 1e-9 * (nw * nr) ** 2 + 1e-300:
+                V(ctx, "plate:speed", f"|v|^2 = {nv * nv!r} but |w|^2|r|^2 - (w.r)^2 = {lag!r}", case)
+            if float(np.dot(np.cross(pole, np.array(pos, dtype=float)), v)) < -1e-12 * (nw * nr) ** 2:
+                V(ctx, "plate:orientation", "v points against w x r (left-handed rotation about the pole)", case)
             if abs(float(np.dot(v, pole))) > 1e-12 * nv * nw + 1e-300:
                 V(ctx, "plate:v.w=0", f"v.w = {float(np.dot(v, pole))!r} for |v||w| = {nv * nw!r}", case)
         # spherical <-> cartesian forms of the pole agree with each other (arctan2/cos: measured only)
@@ -810,7 +867,7 @@ def linreg_part(ctx: Ctx, drv):
     from midgard.math.linear_regression import LinearRegression
 
     rng = ctx.rng
-    ncases = ctx.budget(120, 4000)
+    ncases = ctx.budget(120, 2000)
     for ci in range(ncases):
         n = rng.randint(3, 30)
         x0, h = rng.uniform(-100, 100), 10 ** rng.uniform(-1, 2)
@@ -931,6 +988,7 @@ def run(ctx: Ctx):
     dms_part(ctx, drv)
     lagrange_part(ctx, drv)
     scipy_part(ctx, drv)
+    derivative_part(ctx)
     dops_part(ctx, drv)
     plate_part(ctx, drv, info)
     linreg_part(ctx, drv)
